@@ -697,5 +697,38 @@ theorem retsQ_solo (L : Listener) (d : Dir) :
       rw [ih (stepQ L s op).1, stepQ_wait_other L s op d hd, stepQ_sys]
       rw [step_other L s.sys _ d hd]
 
+/-! ### reservations stamped at or after the limiter's last event -/
+
+theorem monotone_no_jitter (l : Limiter) :
+    ∀ (ops : List BOp) (s : RunSt), stampsMonotone l s ops = true → jitter l s ops = 0 := by
+  intro ops
+  induction ops with
+  | nil => intros; rfl
+  | cons op rest ih =>
+    intro s h
+    simp only [stampsMonotone, Bool.and_eq_true, Bool.or_eq_true, decide_eq_true_eq] at h
+    simp only [jitter, backStep, ih _ h.2]
+    split <;> omega
+
+theorem ordered_monotone (l : Limiter) (w : Nat) :
+    ∀ (ops : List BOp) (s : RunSt), s.st.last ≤ s.now → validB l w s ops = true →
+      stampsMonotone l s ops = true := by
+  intro ops
+  induction ops with
+  | nil => intros; rfl
+  | cons op rest ih =>
+    intro s hl hv
+    simp only [validB, Bool.and_eq_true, decide_eq_true_eq] at hv
+    obtain ⟨⟨⟨⟨hnow, hc⟩, hrd⟩, hn⟩, hv'⟩ := hv
+    have := ih (stepB l s op) (stepB_last_le l s op hl hnow) hv'
+    simp only [stampsMonotone, Bool.and_eq_true, Bool.or_eq_true, decide_eq_true_eq]
+    exact ⟨Or.inr (by omega), this⟩
+
+theorem bytesDone_eq (ops : List SOp) (t0 t1 : Nat) :
+    bytesDone ops t0 t1 = bytesIn (ops.map (SOp.res false)) t0 t1 := by
+  induction ops with
+  | nil => rfl
+  | cons op rest ih => simp [bytesDone, bytesIn, SOp.res, ih]
+
 end C20
 end FwdVerif
